@@ -16,6 +16,11 @@
      C13_CommitNetObs  the REAL Cache calls against the REAL op log (kind, pod, undo target) logged at CommitBegin
      C13_UnevictObs    after Unevict(p) (or a Pipeline that the code turns into it) everything the session says about p equals
                        the REAL projection logged before p's latest Evict - whatever the op log says
+     C13_ClaimsObs     what the session believes about DRA resource claims - every pod's own record of its claim
+                       (allocated devices, node) and, for the ResourceClaim object it refers to, the view of the session's
+                       DRA manager (allocation, the pods it is reserved for), plus the devices the manager counts as in use
+                       on every node - logged after Rollback(cp) / Discard equals what was logged at the checkpoint / at the
+                       statement's begin, and after an un-eviction the pod's part equals what was logged before its eviction
      C13_NoPhantomObs  after Commit returned (complete, or stopped by a failed bind) no pod that this statement changed
                        virtually is left without a successful Cache call for it, and none is left Allocated
      C14_*Obs          the REAL counters against truth recomputed by this spec from the REAL pod statuses,
@@ -38,13 +43,14 @@ VARIABLES l, l0,
           evb,      \* pod -> line of the real projection logged just before its latest successful Evict (0 = none)
           phOK,     \* the last Commit left no phantom: no pod changed virtually by this statement without a Cache call for it
           uvOK,     \* the last un-eviction gave the pod back what it had before that Evict
+          clOK,     \* the last Rollback / Discard / un-eviction restored the resource-claim view (see C13_ClaimsObs)
           hid,      \* <<node, pod>>: the pod was re-nominated onto another GPU of the node it is being evicted from; the node
                     \* then counts it twice by design (releasing on the old GPU, nominated on the new one) under ONE entry
           drifted,  \* a drift monitor was FALSE in an earlier state of this scenario (reported once)
           taint,    \* some property was FALSE in an earlier state of this scenario (drift monitors are then void)
           dmsg      \* first drift noticed by an event handler ("" = none)
 
-tvars == <<vars, l, l0, ri, oi, cps, rbOK, dcOK, pli, rem, rdone, sync, evb, uvOK, phOK, hid, drifted, taint, dmsg>>
+tvars == <<vars, l, l0, ri, oi, cps, rbOK, dcOK, pli, rem, rdone, sync, evb, uvOK, clOK, phOK, hid, drifted, taint, dmsg>>
 
 real  == Trace[ri].state
 rops  == IF Trace[oi].ev = "Scenario" THEN <<>> ELSE Trace[oi].ops
@@ -59,10 +65,14 @@ RPods(st)   == [p \in DOMAIN st.pods |-> RPod(st.pods[p])]
 RNodes(st)  == [n \in DOMAIN st.nodes |-> RNode(st.nodes[n])]
 RJobs(st)   == [j \in DOMAIN st.jobs |-> JobCounters(st.jobs[j])]
 RQueues(st) == [q \in DOMAIN st.queues |-> QueueCounters(st.queues[q])]
-\* the projection compared by C13 on real states: everything logged, GPU groups of Pending pods normalised
-RNorm(st) == [st EXCEPT !.pods = [p \in DOMAIN st.pods |->
+\* the projection compared by C13_RollbackObs / C13_DiscardObs on real states: everything logged about pods, nodes,
+\* workloads and queues, GPU groups of Pending pods normalised (the resource-claim part is judged by C13_ClaimsObs)
+RNorm(st) == [pods |-> [p \in DOMAIN st.pods |->
                  [st.pods[p] EXCEPT !.groups = IF st.pods[p].st = "Pending" THEN <<>> ELSE @,
-                                    !.acc = IF ActiveAllocated(st.pods[p].st) THEN @ ELSE 0]]]
+                                    !.acc = IF ActiveAllocated(st.pods[p].st) THEN @ ELSE 0]],
+              nodes |-> st.nodes, jobs |-> st.jobs, queues |-> st.queues]
+\* the resource-claim part of a logged state (see harness/cmd/stmt/dra.go ProjectClaims); nothing is normalised
+RClaims(st) == st.claims
 ROps(o) == [i \in 1..Len(o) |-> [k |-> o[i].k, p |-> o[i].p, tgt |-> o[i].tgt + 1, valid |-> (o[i].valid = 1)]]
 
 SetCp(f, k, st) == [x \in DOMAIN f \cup {k} |-> IF x = k THEN st ELSE f[x]]
@@ -79,7 +89,7 @@ TraceInit ==
     /\ act = Lbl("Init", "", "", FALSE, <<>>, 0, "", TRUE)
     /\ cps = [x \in {0} |-> i]
     /\ rbOK = TRUE /\ dcOK = TRUE /\ pli = 0 /\ rem = <<>> /\ rdone = TRUE
-    /\ sync = TRUE /\ evb = [p \in DOMAIN Trace[i].cfg.pods |-> 0] /\ uvOK = TRUE /\ phOK = TRUE /\ hid = {} /\ drifted = FALSE /\ taint = FALSE /\ dmsg = ""
+    /\ sync = TRUE /\ evb = [p \in DOMAIN Trace[i].cfg.pods |-> 0] /\ uvOK = TRUE /\ clOK = TRUE /\ phOK = TRUE /\ hid = {} /\ drifted = FALSE /\ taint = FALSE /\ dmsg = ""
 
 Ev == Trace[l]
 \* (observed from the logged call and the logged state before it) Pipeline of a shared pod that the node still
@@ -116,6 +126,11 @@ TraceCall ==
      /\ evb' = IF e.op = "Evict" /\ e.err = 0 THEN [evb EXCEPT ![e.p] = ri] ELSE evb
      /\ uvOK' = IF (e.op = "Unevict" \/ (e.op = "Pipeline" /\ UnevictPath(e))) /\ e.err = 0 /\ evb[e.p] # 0
                 THEN PodSeen(e.state, e.p) = PodSeen(Trace[evb[e.p]].state, e.p) ELSE TRUE
+     /\ clOK' = CASE e.op = "Rollback" -> (e.cp \in DOMAIN cps => RClaims(e.state) = RClaims(Trace[cps[e.cp]].state))
+                   [] e.op = "Discard"  -> RClaims(e.state) = RClaims(Trace[cps[0]].state)
+                   [] (e.op = "Unevict" \/ (e.op = "Pipeline" /\ UnevictPath(e))) /\ e.err = 0 /\ evb[e.p] # 0 ->
+                        RClaims(e.state).pods[e.p] = RClaims(Trace[evb[e.p]].state).pods[e.p]
+                   [] OTHER -> TRUE
      /\ act' = Lbl(e.op, e.p, e.node, e.upd = 1, e.g, e.cp, e.j, e.err = 0)
      /\ CASE e.op = "Evict" ->
                /\ SetS(EvictOp(Cur, e.p)) /\ cps' = SetCp(cps, L, l)
@@ -182,7 +197,7 @@ TraceCache ==
         ELSE /\ dmsg' = IF dmsg = "" THEN "Cache call although the model has no commit step left" ELSE dmsg
              /\ UNCHANGED <<pod, node, job, queue, ops, emitted, ci>>
   /\ sync' = FALSE /\ l' = l + 1
-  /\ UNCHANGED <<ri, oi, cps, rbOK, dcOK, pli, rdone, plan, phase, conv, act, hid, evb, uvOK, phOK>>
+  /\ UNCHANGED <<ri, oi, cps, rbOK, dcOK, pli, rdone, plan, phase, conv, act, hid, evb, uvOK, clOK, phOK>>
   /\ Keep
 
 \* a hook inside Rollback / Discard / Convert / Commit: only the real state is observed
@@ -190,7 +205,7 @@ TraceH ==
   /\ Here("H")
   /\ ri' = l /\ sync' = FALSE /\ l' = l + 1 /\ hid' = StillHidden(hid, Ev.state)
   /\ UNCHANGED <<pod, node, job, queue, ops, emitted, plan, phase, ci, conv, act,
-                 oi, cps, rbOK, dcOK, pli, rem, rdone, dmsg, evb, uvOK, phOK>>
+                 oi, cps, rbOK, dcOK, pli, rem, rdone, dmsg, evb, uvOK, clOK, phOK>>
   /\ Keep
 
 (***************************************************************************)
@@ -203,6 +218,9 @@ C13_CommitNetObs == CommitNetOK(rplan, rem, rdone)
 \* un-evicting a pod gives it back exactly what it had before its eviction (status, node, GPU groups, virtual flag,
 \* accepted resources, its entries on the nodes) - whatever the op log says
 C13_UnevictObs == uvOK
+\* discarding / rolling back what-if steps, or putting an evicted pod back, leaves the scheduler's view of resource claims
+\* (per pod and per ResourceClaim object, and the devices counted as in use) exactly as it was at that point
+C13_ClaimsObs == clOK
 \* a Commit, complete or stopped by a failed bind, leaves nothing of the statement applied in the session that did not
 \* reach the cluster
 C13_NoPhantomObs == phOK
@@ -233,7 +251,7 @@ C14_NodeBaseObs ==
        /\ r.ug = Sum(all, LAMBDA p : RG(p))
 
 \* StopOn selects the properties whose violation ends a scenario: "C13", "C14" or "all"
-Healthy == /\ (StopOn # "C14") => (C13_RollbackObs /\ C13_DiscardObs /\ C13_CommitNetObs /\ C13_UnevictObs /\ C13_NoPhantomObs)
+Healthy == /\ (StopOn # "C14") => (C13_RollbackObs /\ C13_DiscardObs /\ C13_CommitNetObs /\ C13_UnevictObs /\ C13_ClaimsObs /\ C13_NoPhantomObs)
            /\ (StopOn # "C13") => (C14_JobObs /\ C14_QueueObs /\ C14_AcceptedObs /\ C14_VectorObs /\ C14_NodeBaseObs)
 
 (***************************************************************************)
@@ -241,7 +259,7 @@ Healthy == /\ (StopOn # "C14") => (C13_RollbackObs /\ C13_DiscardObs /\ C13_Comm
 (***************************************************************************)
 \* after a property violation (of either family) the real code has left the specified behaviour: the model's
 \* predictions are then not comparable any more (no drift verdict for the rest of the scenario)
-AllC == C13_RollbackObs /\ C13_DiscardObs /\ C13_CommitNetObs /\ C13_UnevictObs /\ C13_NoPhantomObs /\ C14_JobObs /\ C14_QueueObs /\ C14_AcceptedObs /\ C14_VectorObs /\ C14_NodeBaseObs
+AllC == C13_RollbackObs /\ C13_DiscardObs /\ C13_CommitNetObs /\ C13_UnevictObs /\ C13_ClaimsObs /\ C13_NoPhantomObs /\ C14_JobObs /\ C14_QueueObs /\ C14_AcceptedObs /\ C14_VectorObs /\ C14_NodeBaseObs
 Clean == sync /\ ~taint /\ AllC
 D_Pods   == Clean => RPods(real) = pod
 D_Nodes  == Clean => RNodes(real) = node
@@ -274,7 +292,7 @@ Drift(name, ok) == ok \/ PrintT(<<"DRIFT", name, l0, l, dmsg>>)
 AllD == D_Pods /\ D_Nodes /\ D_Jobs /\ D_Queues /\ D_Ops /\ D_Msg /\ D_NoErr /\ D_CommitErr /\ D_Init /\ D_Shape
 Report ==
   /\ Viol("C13_RollbackObs", C13_RollbackObs) /\ Viol("C13_DiscardObs", C13_DiscardObs) /\ Viol("C13_CommitNetObs", C13_CommitNetObs)
-  /\ Viol("C13_UnevictObs", C13_UnevictObs) /\ Viol("C13_NoPhantomObs", C13_NoPhantomObs)
+  /\ Viol("C13_UnevictObs", C13_UnevictObs) /\ Viol("C13_ClaimsObs", C13_ClaimsObs) /\ Viol("C13_NoPhantomObs", C13_NoPhantomObs)
   /\ Viol("C14_JobObs", C14_JobObs) /\ Viol("C14_QueueObs", C14_QueueObs) /\ Viol("C14_AcceptedObs", C14_AcceptedObs) /\ Viol("C14_VectorObs", C14_VectorObs)
   /\ Viol("C14_NodeBaseObs", C14_NodeBaseObs)
   /\ drifted \/ ( /\ Drift("D_Pods", D_Pods) /\ Drift("D_Nodes", D_Nodes) /\ Drift("D_Jobs", D_Jobs) /\ Drift("D_Queues", D_Queues)
